@@ -21,7 +21,7 @@ TRI = {(1, 2): (2, 2), (1, 3): (3, 2), (2, 3): (3, 3)}
 SETS = {
     "L_none": {}, "L_T2": T2, "L_T3": T3, "L_Tri": TRI,
     "NF_none": [], "NF_Tri": [(2, 3), (3, 3)],
-    "C_Tri12": [(1, 2, 2, 2), (2, 3, 3, 3)],
+    "C_Tri12": [(1, 2, 2, 2), (2, 3, 3, 3)], "C_Tri1": [(1, 2, 2, 2)],
     "H2": [1, 2], "H3": [1, 2, 3],
     "At1_3": {1: (1, 1), 2: (1, 2), 3: (1, 3)}, "At1_2": {1: (1, 1), 2: (1, 2)}, "At1_same": {1: (1, 1), 2: (1, 1)},
     "At2_3": {1: (1, 1), 2: (1, 2), 3: (2, 1)}, "At2_2": {1: (1, 1), 2: (2, 1)},
@@ -48,9 +48,11 @@ WORLDS = {
     "pairs_T3": ("pairs", 3, "L_T3", "NF_none", "L_none", "H3", "At3_3", "Mv_none", "D_H3UB", "Sh_al", "G_none", [2], 3, 3, 4),
     "multi_T1": ("multi", 1, "L_none", "NF_none", "L_none", "H3", "At1_3", "Mv_none", "D_H3UB", "Sh_abl", "G_3_6_31", [0, 2], 2, 2, 3),
     "multi_T1s": ("multi", 1, "L_none", "NF_none", "L_none", "H2", "At1_same", "Mv_none", "D_H2B", "Sh_ar", "G_6", [2], 4, 4, 6),
-    "multi_T2": ("multi", 2, "L_T2", "NF_none", "L_T2", "H2", "At2_2", "Mv_none", "D_H2B", "Sh_ar", "G_6_31", [0, 1, 2], 3, 3, 5),
+    "multi_T2": ("multi", 2, "L_T2", "NF_none", "L_T2", "H2", "At2_2", "Mv_none", "D_H2B", "Sh_ar", "G_6_31", [0, 1, 2], 3, 3, 6),
+    "multi_T2u": ("multi", 2, "L_T2", "NF_none", "L_T2", "H2", "At2_2", "Mv_none", "D_H2", "Sh_ar", "G_none", [1], 5, 4, 7),
     "multi_T3": ("multi", 3, "L_T3", "NF_none", "L_none", "H3", "At3_3", "Mv_none", "D_H3UB", "Sh_abl", "G_6_11", [2], 2, 2, 3),
-    "multi_Tri": ("multi", 3, "L_Tri", "NF_Tri", "C_Tri12", "H3", "AtTri", "Mv_none", "D_H3B", "Sh_ab", "G_6_11", [0, 2], 3, 3, 4),
+    "multi_Tri": ("multi", 3, "L_Tri", "NF_Tri", "C_Tri12", "H3", "AtTri", "Mv_none", "D_H3B", "Sh_a", "G_6_11", [0, 2], 3, 3, 4),
+    "multi_TriR": ("multi", 3, "L_Tri", "NF_Tri", "C_Tri1", "H2", "At2_2", "Mv_none", "D_H2", "Sh_a", "G_none", [2], 5, 5, 7),
 }
 FIELDS = ("comp", "ns", "links", "noflood", "cuts", "hosts", "at", "moves", "dsts", "shapes", "gaps", "nbufs",
           "d_edges", "dq", "dt")
